@@ -85,7 +85,14 @@ Extremes ==
 \* followed by a second redirect and a final response on the same stream: the follow-up calls must not panic
 OddLocations == {"http://b.test:99999/x", "http://[::1", "//", "http://a b/", "http:///x", "?", "#f", "http://", "http://b.test:/x",
                  "HTTP://B.TEST/%zz", "http://b.test/\\x", "x:y", "/../../..", "http://b.test:80:80/"}
+\* long Locations of obs-text bytes at every alignment (error texts that quote a Location must cope with any length)
+RECURSIVE RepStr(_, _)
+RepStr(x, n) == IF n = 0 THEN "" ELSE x \o RepStr(x, n - 1)
+LongOddLocations == { pre \o RepStr("<HI>", n) : pre \in {"/", "/a", "/ab", "http://b.test/"}, n \in {42, 43, 60, 129} }
 OddRedirects ==
+  { [req |-> r, op |-> "odd-location", site |-> 0,
+     segs |-> <<St("1.1", "302", "Found"), Fd("Location", loc), Fd("Content-Length", "0"), Bl,
+                St("1.1", "200", "OK"), Fd("Content-Length", "0"), Bl>>] : loc \in LongOddLocations, r \in {"get"} } \cup
   { [req |-> r, op |-> "odd-location", site |-> 0,
      segs |-> <<St("1.1", "302", "Found"), Fd("Location", loc), Fd("Content-Length", "0"), Bl,
                 St("1.1", "307", "Again"), Fd("Location", "/next"), Fd("Content-Length", "0"), Bl,
